@@ -3,10 +3,12 @@
   Imports only core-only modules (no Mathlib) so it links as a `lean_exe`.
 -/
 import Pk.Driver.C17
+import Pk.Driver.Mgr
 
 def main (args : List String) : IO UInt32 := do
   match args with
   | ["c17"] => Pk.Driver.C17.main; return 0
+  | "mgr" :: convs => Pk.Driver.Mgr.main convs; return 0
   | _ =>
     IO.eprintln "usage: pkmodel <c17|...>  (line protocol on stdin/stdout)"
     return 2
